@@ -18,8 +18,8 @@ PROPS = ['C01', 'C02', 'C03', 'C04', 'C06', 'C07', 'C08', 'C09', 'C10', 'C11', '
 # ------------------------------------------------------------------ batches
 def batches(tier):
     if tier == 'thorough':
-        return [('core', 2000, 130), ('resize', 1600, 130), ('close', 1000, 140), ('mixed', 1400, 160)]
-    return [('core', 110, 130), ('resize', 90, 130), ('close', 60, 130), ('mixed', 60, 150)]
+        return [('core', 2000, 130), ('resize', 1600, 130), ('close', 1000, 140), ('mixed', 1400, 160), ('order', 600, 0)]
+    return [('core', 100, 130), ('resize', 85, 130), ('close', 55, 130), ('mixed', 55, 150), ('order', 40, 0)]
 
 
 def gen_traces(seed, profile, n, maxlabels):
@@ -44,6 +44,14 @@ def gen_traces_h2(seed, n, maxlabels):
     if p.returncode != 0 or len(traces) != n:
         raise RuntimeError('h2 harness failed (rc %d, %d/%d traces): %s' % (p.returncode, len(traces), n, p.stderr[-500:]))
     return traces
+
+
+def run_stress(n):
+    """free-running races on real threads (search aid for windows without a schedule point)"""
+    p = subprocess.run([BIN, 'stress', str(n)], stdout=subprocess.PIPE, stderr=subprocess.PIPE, text=True, timeout=3000)
+    if p.returncode != 0:
+        raise RuntimeError('stress run failed: %s' % p.stderr[-500:])
+    return json.loads(p.stdout.strip().splitlines()[-1])
 
 
 def build_table():
@@ -311,6 +319,22 @@ def monitor_trace(t, P):
                 if d[name] < 0 or d[name] > 10 ** 6:
                     fail('C11', i, '%s wrapped: %d' % (name, d[name]))
                     fail('C02', i, '%s wrapped: %d' % (name, d[name]))
+        # C08: the idle queue only changes by removing elements (order of the rest kept) and by
+        # appending at the back; a get offers the front (Fifo) / back (Lifo) element
+        if d['alive'] and i > 0 and P[i - 1]['alive']:
+            old_ids, new_ids = idle_ids(P[i - 1]), idle_ids(d)
+            kept = [x for x in old_ids if x in new_ids]
+            fresh = [x for x in new_ids if x not in old_ids]
+            if new_ids != kept + fresh:
+                fail('C08', i, 'idle queue went from %s to %s: order not preserved / not appended at the back' % (old_ids, new_ids))
+            if l[0] == 1 and P[i - 1]['tasks'][l[1]] == 6 and len(old_ids) > len(new_ids) and old_ids:
+                gone = [x for x in old_ids if x not in new_ids]
+                want = old_ids[-1] if t['cfg'][1] else old_ids[0]
+                if gone != [want]:
+                    fail('C08', i, 'get popped %s from idle queue %s, queue mode %s offers %d' % (
+                        gone, old_ids, 'Lifo' if t['cfg'][1] else 'Fifo', want))
+            if any(e[0] == 1 for e in d['events']) and old_ids and l[0] == 1 and P[i - 1]['tasks'][l[1]] == 6:
+                fail('C08', i, 'Manager::create called although idle objects %s were available' % old_ids)
         # C10: timeouts
         h2 = t.get('kind') == 'h2'
         for tt, c in enumerate(d['tasks']):
@@ -387,6 +411,8 @@ def monitor_trace(t, P):
             msg = 'capacity probe: results %s, expected %s (max_size %d)' % (res, exp, P[a]['max'])
             fail('C02', b, msg)
             fail('C07', b, msg)
+            if any(l2[0] == 0 and l2[2] in (2, 4) for l2 in t['labels'][:a]):
+                fail('C09', b, msg + ' after take()/retain()')
     return fails
 
 
@@ -523,6 +549,13 @@ def run_engine(seed, tier):
                 trace=-1, step=0, msg='build() with timeouts code %d, runtime %d returned %d, expected %d'
                 % (row['code'], row['runtime'], row['result'], want)))
     res['build_table_rows'] = len(table)
+    st = run_stress(60000 if tier == 'thorough' else 5000)
+    res['stress_runs'] = st['runs']
+    for f in st['fails']:
+        pid = f.split(' ', 1)[0]
+        if pid in res['props']:
+            res['props'][pid]['monitor_fails'].append(dict(
+                trace=-1, step=0, msg='free-running race (real threads, not deterministically replayable): ' + f))
     res.update(ntraces=len(traces), ncorpus=ncorpus, key=key, seed=seed, tier=tier,
                timing=dict(gen_s=round(t1 - t0, 1), model_s=round(t2 - t1, 1), analyze_s=round(time.time() - t2, 1)))
     # keep the traces needed for replays and samples
